@@ -2,8 +2,8 @@
 
 Proof: coq/Lang/{Sem,SemProps,SemMono,PyIR,Compile,CompileProofs,Helpers}.v, statements in
 coq/Props/C04.v.  Ties: (A) the parser's and the bytecode compiler's operator tables are
-regenerated from /repo on every run and proved (vm_compute) to compose to the like-named
-operation; (B) correspondence — generated programs are written as real source files,
+regenerated from /repo on every run (by parsing and compiling one one-line function per
+documented name) and proved (vm_compute) to compose to the like-named operation; (B) correspondence — generated programs are written as real source files,
 decorated by fpy2 (parser inside the loop), executed by fpy2 and by the Gallina evaluator
 `run` (vm_compute inside Coq) on the same arguments / caller contexts; the generator's
 Coq term is also compared with the term exported from the AST the real parser produced.
@@ -419,6 +419,7 @@ def run(ck):
         'hand-written Gallina model of the documented semantics (coq/Lang/Sem.v) and of the compile scheme (coq/Lang/Compile.v); tied to /repo by differential execution, not by translation',
         'provisional number instance coq/Lang/NumInst.v (exact rational arithmetic + rf_round of Num/RealFloat.v) for REAL / MPFloat / MPSFloat / IEEE contexts; correct rounding itself is C01/C02',
         'harness/lang.py printers (program -> FPy source and Coq term; fpy2 AST -> Coq term; values -> Coq terms) and harness/langgen.py generator',
+        'statement-skeleton printer of the emitted Python AST (c04.emitted_skeleton) vs `skeleton` of coq/Lang/Compile.v: ties the compile scheme the theorems speak about to the code BytecodeCompiler emits (expressions abstracted)',
         'CPython executing the Python AST emitted by BytecodeCompiler',
     ]
     ck.assumptions += ['well-typed programs only (where Python would fall back on truthiness / duck typing the model says TypeError)',
@@ -436,7 +437,7 @@ def run(ck):
     from fractions import Fraction
     globals()['F'] = Fraction
     rng = Rng(ck.seed, 'c04')
-    nprog = 2500 if thorough else 330
+    nprog = 2500 if thorough else 320
     nargs = 6 if thorough else 4
     cases, info = [], []
     rejected = 0
